@@ -30,6 +30,8 @@ type BlockCtx struct {
 	PeriodEnd bool
 	ImportErr error
 	Evidence  []string
+	// EvidenceVals are the validators evidence was posted against before this block was built.
+	EvidenceVals []common.Address
 }
 
 // Monitor observes a run. Every callback returns false to stop the case (after a violation).
@@ -231,6 +233,7 @@ func (r *Run) step(n uint64, mons []Monitor) bool {
 			PostEvidence(r.A, ev)
 			v := st.GetValidatorByMainAddr(target)
 			b.Evidence = append(b.Evidence, fmt.Sprintf("double-sign of validator #%d (token %v, role %d, status %d) in round %d", k, v.Token, v.Role, v.Status, n-1))
+			b.EvidenceVals = append(b.EvidenceVals, target)
 			r.C.Count("evidences_posted", 1)
 		}
 	}
@@ -304,10 +307,10 @@ func (r *Run) step(n uint64, mons []Monitor) bool {
 // look-back reader as consensus sees it) and reports them under classes prefixed "c08:".
 type InvMonitor struct{}
 
-func (InvMonitor) Start(r *Run) bool    { return true }
-func (InvMonitor) Hooks() *build.Hooks  { return nil }
+func (InvMonitor) Start(r *Run) bool          { return true }
+func (InvMonitor) Hooks() *build.Hooks        { return nil }
 func (InvMonitor) Built(*Run, *BlockCtx) bool { return true }
-func (InvMonitor) Finish(*Run)          {}
+func (InvMonitor) Finish(*Run)                {}
 
 func (InvMonitor) Imported(r *Run, b *BlockCtx) bool {
 	// the builder's post state object (already committed: reading it cannot influence the chain)
